@@ -48,6 +48,7 @@ fn main() {
         for r in shapes::stream_table() { println!("{}", r); }
         return;
     }
+    if std::env::var_os("MM_FLIP").is_some() { elems::FLIP.store(true, std::sync::atomic::Ordering::Relaxed); }
     let path = &args[1];
     let fault_path = &args[2];
     let marker = args.get(3).cloned();
